@@ -8,10 +8,16 @@ ALPHAS = [(1, 4), (1, 2), (3, 4), (1, 1), (3, 2), (2, 1)]
 
 
 class HalfReg(stubs.RecReg):
-    """RecReg + 1/2: individual predictions are not integers, so a result container of the query's dtype shows"""
+    """RecReg + 1/2: individual predictions are not integers, so a result container of the query's dtype shows.
+    Like a warm-started model it remembers how often THIS object was fitted (each fit after the first shifts its
+    predictions by 1000): the prototype handed to IntervalRegressor is already fitted once, its clones are not."""
+
+    def fit(self, X, y, sample_weight=None):
+        self.n_fits_ = getattr(self, "n_fits_", 0) + 1
+        return stubs.RecReg.fit(self, X, y, sample_weight)
 
     def predict(self, X):
-        return stubs.RecReg.predict(self, X) + 0.5
+        return stubs.RecReg.predict(self, X) + 0.5 + 1000.0 * (self.n_fits_ - 1)
 
 
 def one_trace(tid, n, m, a, b, weighted, n_jobs, seed, probes):
@@ -31,8 +37,11 @@ def one_trace(tid, n, m, a, b, weighted, n_jobs, seed, probes):
                        size=int(size) if size is not None else -1, idx=[int(v) for v in numpy.asarray(out).ravel()]))
         return out
 
+    proto = HalfReg()
+    if (n + m) % 2:
+        proto.fit(X[:1] + 500, ya[:1])          # the caller's prototype was used before
     del stubs.LOG[:]
-    model = IntervalRegressor(HalfReg(), n_estimators=m, alpha=a / b, n_jobs=n_jobs)
+    model = IntervalRegressor(proto, n_estimators=m, alpha=a / b, n_jobs=n_jobs)
     numpy.random.seed(seed)
     numpy.random.randint = rec
     err = None
